@@ -37,6 +37,7 @@ package node
 //@   requires @hash txBatch.Entry.Hash != nil && d.Pegnet != nil
 //@   requires @nonneg balNonNeg(Lbal)
 //@   requires @burn_parses validFA(GlobalBurnAddress)
+//@   requires @amounts_fit amountsFit(txBatch.Transactions)
 //@   let H = *txBatch.Entry.Hash
 //@   let burn = burnAddrAt(currentHeight)
 //@   let txs = txBatch.Transactions
@@ -254,13 +255,6 @@ package node
 //@   ensures result == nil ==> (forall k int :: 0 <= k && k < len(eblock.Entries) ==> eblock.Entries[k].Hash != nil)
 //@   ensures envHealthy ==> result == nil
 //@
-//@ func (*Pegnetd).MintTokensForBalance
-//@   trusted
-//@   requires @only_at_activation height == config.V204EnhanceActivation
-//@   modifies Lbal, Lsupply
-//@   ensures !isRejectErr(result)
-//@   ensures result == nil ==> balNonNeg(Lbal)
-//@
 //@ func (*Pegnetd).NullifyMintedTokens
 //@   trusted
 //@   requires @only_at_activation height == config.V204BurnMintedTokenActivation
@@ -292,13 +286,6 @@ package node
 //@
 //@ func (*Pegnetd).ApplyFactoidBlock
 //@   trusted
-//@   modifies Lbal, Lsupply
-//@   ensures !isRejectErr(result)
-//@   ensures result == nil ==> balNonNeg(Lbal)
-//@
-//@ func (*Pegnetd).DevelopersPayouts
-//@   trusted
-//@   requires @cadence height >= config.V20DevRewardsHeightActivation && height % 144 == 0
 //@   modifies Lbal, Lsupply
 //@   ensures !isRejectErr(result)
 //@   ensures result == nil ==> balNonNeg(Lbal)
@@ -354,3 +341,53 @@ package node
 //@   modifies *
 //@   loop 1 invariant @in_memory_height_is_committed_height d.Sync != nil && d.Pegnet != nil && d.Pegnet.DB != nil && d.Sync.Synced == Csynced
 //@   loop 2 invariant @in_memory_height_is_committed_height d.Sync != nil && d.Pegnet != nil && d.Pegnet.DB != nil && d.Sync.Synced == Csynced && heights != nil && heights.DirectoryBlock <= 2147483647
+//@
+//@ // ---- scheduled issuance (C15 C04) ----------------------------------------------------------------
+//@ spec func devShare(pct float64, h int) int = h >= config.V202EnhanceActivation ? f2u(f64("2e9") * pct * f64("144")) : f2u(f64("2e9") * pct)
+//@ spec func devPay(b map[factom.FAAddress]map[int]int, devs []DevReward, n int, h int) map[factom.FAAddress]map[int]int =
+//@     n <= 0 ? b : credit(devPay(b, devs, n - 1, h), faAddr(devs[n - 1].DevAddress), fat2.PTickerPEG, devShare(devs[n - 1].DevRewardPct, h))
+//@ spec func devPaid(devs []DevReward, n int, h int) int = n <= 0 ? 0 : devPaid(devs, n - 1, h) + devShare(devs[n - 1].DevRewardPct, h)
+//@
+//@ // ground facts about the fixed address literals (each literal is parsed by the real factom.NewFAAddress in /verif/conformance)
+//@ axiom fixedAddressesParse(): validFA(GlobalBurnAddress) && validFA(GlobalOldBurnAddress) && validFA(GlobalMintAddress) && (forall k int :: 0 <= k && k < len(DeveloperRewardAddreses) ==> validFA(DeveloperRewardAddreses[k].DevAddress))
+//@
+//@ func (*Pegnetd).DevelopersPayouts
+//@   props C15 C04
+//@   nullable fLog
+//@   requires @wellformed d.Pegnet != nil
+//@   requires @cadence height >= config.V20DevRewardsHeightActivation && height % 144 == 0
+//@   requires @addresses_parse forall k int :: 0 <= k && k < len(developers) ==> validFA(developers[k].DevAddress)
+//@   requires @nonneg balNonNeg(Lbal)
+//@   modifies Lbal, Lsupply
+//@   ensures @each_developer_paid_its_share err == nil ==> Lbal == devPay(old(Lbal), developers, len(developers), height)
+//@   ensures @supply err == nil ==> Lsupply == upd(old(Lsupply), fat2.PTickerPEG, old(Lsupply)[fat2.PTickerPEG] + devPaid(developers, len(developers), height))
+//@   ensures @never_negative err == nil ==> balNonNeg(Lbal)
+//@   ensures @error_is_not_a_reject_code !isRejectErr(err)
+//@   loop 1 invariant @range 0 <= iter && iter <= len(developers)
+//@   loop 1 invariant @paid Lbal == devPay(old(Lbal), developers, iter, height) && balNonNeg(Lbal)
+//@   loop 1 invariant @supply Lsupply == upd(old(Lsupply), fat2.PTickerPEG, old(Lsupply)[fat2.PTickerPEG] + devPaid(developers, iter, height))
+//@   loop 1 preserves old
+//@
+//@ // the fixed list: 14 developers whose shares add up to exactly 2,000 PEG x 144 from 2.0.2 on and 2,000 PEG before
+//@ spec func devSum14(h int) int = devShare(DeveloperRewardAddreses[0].DevRewardPct, h) + devShare(DeveloperRewardAddreses[1].DevRewardPct, h) + devShare(DeveloperRewardAddreses[2].DevRewardPct, h) + devShare(DeveloperRewardAddreses[3].DevRewardPct, h) + devShare(DeveloperRewardAddreses[4].DevRewardPct, h) + devShare(DeveloperRewardAddreses[5].DevRewardPct, h) + devShare(DeveloperRewardAddreses[6].DevRewardPct, h) + devShare(DeveloperRewardAddreses[7].DevRewardPct, h) + devShare(DeveloperRewardAddreses[8].DevRewardPct, h) + devShare(DeveloperRewardAddreses[9].DevRewardPct, h) + devShare(DeveloperRewardAddreses[10].DevRewardPct, h) + devShare(DeveloperRewardAddreses[11].DevRewardPct, h) + devShare(DeveloperRewardAddreses[12].DevRewardPct, h) + devShare(DeveloperRewardAddreses[13].DevRewardPct, h)
+//@ lemma devListTotal144(h int) [C15]: len(DeveloperRewardAddreses) == 14 && (h >= config.V202EnhanceActivation ==> devSum14(h) == 200000000000 * 144)
+//@ lemma devListTotal1(h int) [C15]: h < config.V202EnhanceActivation ==> devSum14(h) == 200000000000
+//@
+//@ spec func mintAll(b map[factom.FAAddress]map[int]int, ms []MintSupply, n int, a factom.FAAddress) map[factom.FAAddress]map[int]int =
+//@     n <= 0 ? b : credit(mintAll(b, ms, n - 1, a), a, ms[n - 1].Ticker, ms[n - 1].Amount * 100000000)
+//@
+//@ func (*Pegnetd).MintTokensForBalance
+//@   props C15 C04
+//@   arith checked
+//@   requires @wellformed d.Pegnet != nil
+//@   requires @only_at_activation height == config.V204EnhanceActivation
+//@   requires @nonneg balNonNeg(Lbal)
+//@   requires @amounts_fit forall k int :: 0 <= k && k < len(MintTotalSupplyMap) ==> MintTotalSupplyMap[k].Amount <= 184467440737
+//@   modifies Lbal, Lsupply
+//@   ensures @minted_exactly err == nil ==> Lbal == mintAll(old(Lbal), MintTotalSupplyMap, len(MintTotalSupplyMap), faAddr(GlobalMintAddress))
+//@   ensures @never_negative err == nil ==> balNonNeg(Lbal)
+//@   ensures @error_is_not_a_reject_code !isRejectErr(result)
+//@   loop 1 invariant @range 0 <= iter && iter <= len(MintTotalSupplyMap)
+//@   loop 1 invariant @minted Lbal == mintAll(old(Lbal), MintTotalSupplyMap, iter, faAddr(GlobalMintAddress)) && balNonNeg(Lbal)
+//@   loop 1 preserves old
+//@ lemma mintListFits() [C15]: len(MintTotalSupplyMap) == 31 && (forall k int :: 0 <= k && k < 31 ==> MintTotalSupplyMap[k].Amount <= 184467440737 && validTicker(MintTotalSupplyMap[k].Ticker))
